@@ -46,8 +46,8 @@ def run(ctx):
         "float": lambda A, B: (float(A), float(B.jordans[0])), "moment": lambda A, B: IntegrateShape.polynomial(B, 1, 1), "copy": lambda A, B: copy.deepcopy(B),
         "intersection": lambda A, B: A.jordans[0].intersection(B.jordans[0]),
     }
-    per_op = 3 if ctx.quick else 400
-    per_dirty = 12 if ctx.quick else 400
+    per_op = 3 if ctx.quick else 40
+    per_dirty = 12 if ctx.quick else 150
     if ctx.quick:
         pairs = pairs[:2]
         operations = {k: v for k, v in operations.items() if k in ("or", "and", "B in A", "J in A", "eq", "float", "moment", "copy", "intersection")}
